@@ -117,11 +117,12 @@ func c14Scenarios(tier string) []*Scenario {
 		}
 		return ""
 	}
+	sharedExecutor := false
 	add := func(name string, stack []Spec, exes []ExeSpec, extra ...func(env *Env)) {
 		out = append(out, &Scenario{
 			Name:  fmt.Sprintf("C14/%s [%s] %s", name, stackStr(stack), exesStr(exes)),
 			Bound: bound, Reduce: true,
-			Body: multiBody(stack, exes, MultiOpts{Reduce: true, Quiet: true, Grace: 100, Extra: extra, Final: final}),
+			Body: multiBody(stack, exes, MultiOpts{Reduce: true, Quiet: true, Grace: 100, Extra: extra, Final: final, SharedExecutor: sharedExecutor}),
 		})
 	}
 	slowFail := []Out{{Err: E1, Dur: 10}, {V: 1, Dur: 10}}
@@ -163,6 +164,13 @@ func c14Scenarios(tier string) []*Scenario {
 			add("pair", []Spec{a, b}, []ExeSpec{{Script: slowFail}, {Script: slowOK, Async: true, StartAt: 2}}, standalone)
 		}
 	}
+	// the same Executor value (not only the same policies) used by overlapping executions
+	sharedExecutor = true
+	for _, a := range cfgs {
+		add("one-executor", []Spec{a}, []ExeSpec{{Script: slowFail}, {Script: slowFail, StartAt: 2}, {Script: slowOK, Async: true, StartAt: 4}})
+	}
+	add("one-executor", []Spec{cfgs[0], cfgs[4]}, []ExeSpec{{Script: slowFail}, {Script: slowFail, Async: true, StartAt: 2}})
+	sharedExecutor = false
 	// one execution in which the library itself is concurrent: hedge over each policy, timeout firing during each policy
 	for _, b := range cfgs {
 		add("hedge-over", []Spec{{Kind: KHedge, MaxHedges: 2, HDelay: 5, Cancel: []Cond{{K: "result", V: 1}}}, b}, []ExeSpec{{Script: []Out{{Err: E1, Dur: 12}, {Err: E1, Dur: 12}, {V: 1, Dur: 3}}}})
@@ -208,7 +216,7 @@ func init() {
 		Property:  "C14",
 		Race:      true,
 		Technique: "stateless schedule exploration of the instrumented library in a race-detector build whose baton hand-offs are invisible to the detector: every explored schedule is judged by happens-before, not by the failure manifesting",
-		Rule: "harness family: every policy alone and every ordered pair of the eight policies (72 stacks) with a sync and an async execution plus a standalone API caller on the shared instances; hedge over each policy and timeout firing during each policy (the library's own goroutines); " +
+		Rule: "harness family: every policy alone and every ordered pair of the eight policies (72 stacks) with a sync and an async execution plus a standalone API caller on the shared instances; each policy with three overlapping executions through one Executor value; hedge over each policy and timeout firing during each policy (the library's own goroutines); " +
 			"async runner + Cancel; every schedule within deviation bound 1 (thorough 2); a schedule fails on a race report, panic, deadlock, an execution that does not complete, an outermost timeout whose OnTimeoutExceeded count differs from the executions that returned ErrExceeded, a bulkhead that does not have all its permits back at the end, an async execution under retry/hedge cancelled through its ExecutionResult that reports the bare context error, or a shared bursty limiter letting more invocations and standalone permits through than its rate; distinct = distinct observation logs",
 		Assume: []string{"the race detector reports each pair of access sites once per process, so a race is attributed to the first schedule that exposes it", "the harness shares no memory between its threads except through //go:norace helpers",
 			"sequentially consistent interleavings; weak-memory reorderings of racy code are not explored"},
